@@ -380,14 +380,14 @@ Lemma single_loop_spec vs c0 : c0 <= 2 -> (forall v, In v vs -> voter_ok v) ->
        (forall v, In v vs -> (c = 2 -> better v x xj) /\ (c <> 2 -> better v x xi)) /\
        (c = 1 -> c0 = 1 \/ exists v, In v vs /\ forces_left v) /\
        (c = 2 -> c0 = 2 \/ exists v, In v vs /\ forces_right v) /\
-       (c = 0 -> c0 = 0)) /\
+       (c = 0 -> c0 = 0 /\ forall v, In v vs -> better v x xi /\ better v x xj)) /\
     (contra = true ->
        (c0 = 1 \/ exists v, In v vs /\ forces_left v) /\ (c0 = 2 \/ exists v, In v vs /\ forces_right v)).
 Proof.
   revert c0; induction vs as [|v vs IH]; intros c0 Hc0 Hok.
   - exists c0, false. simpl. split; [reflexivity|]. split; [|discriminate]. intros _.
     split; [assumption|]. split; [auto|]. split; [intros w []|].
-    split; [intros Hc; now left|]. split; [intros Hc; now left|auto].
+    split; [intros Hc; now left|]. split; [intros Hc; now left|]. intros Hc. split; [assumption|intros w []].
   - destruct (Hok v (or_introl eq_refl)) as (Hx & Hxi & Hxj & N1 & N2 & N3 & Hab).
     assert (Hok' : forall w, In w vs -> voter_ok w) by (intros w Hw; apply Hok; now right).
     assert (D1 : idxN v x <> idxN v xi) by (intros E; apply N1; eapply idxN_inj; eauto).
@@ -437,7 +437,8 @@ Proof.
               ** intros w [<-|Hw]; [split; intros; assumption|apply (H3 w Hw)].
               ** intros Hc. destruct (H4 Hc) as [?|(w & Hw & ?)]; [now left|right; exists w; split; [now right|assumption]].
               ** intros Hc. destruct (H5 Hc) as [?|(w & Hw & ?)]; [now left|right; exists w; split; [now right|assumption]].
-              ** assumption.
+              ** intros Hc. destruct (H6 Hc) as [Hc0z Hall]. split; [assumption|].
+                 intros w [<-|Hw]; [split; assumption|now apply Hall].
            ++ intros Hct. destruct (Ht Hct) as [H1 H2]. split.
               ** destruct H1 as [?|(w & Hw & ?)]; [now left|right; exists w; split; [now right|assumption]].
               ** destruct H2 as [?|(w & Hw & ?)]; [now left|right; exists w; split; [now right|assumption]].
@@ -1177,7 +1178,7 @@ Lemma ext_left ol rl rl' or_ x : NoDup rl -> NoDup rl' -> SPextL ol rl or_ -> In
   (forall v, In v prefs -> forall r, In r rl -> r <> x -> better v r x) ->
   (forall d, In d rl' <-> In d rl /\ d <> x) ->
   ((forall v, In v prefs -> forall b p, In b rl -> In p (ol ++ or_) -> better v b p) \/
-   (exists v c, In v prefs /\ In c or_ /\ better v c x)) ->
+   (exists v c, In v prefs /\ In c or_ /\ better v c x) \/ rl' = []) ->
   SPextL (ol ++ [x]) rl' or_.
 Proof.
   intros N1 N2 (M & HM & H) Hx Hw Hrl' Alt.
@@ -1192,7 +1193,11 @@ Proof.
   { intros r Hr Hne'. apply Hw; auto. eapply Permutation_in; eauto. }
   - now apply (Hfirst M').
   - destruct M' as [|m M'']; [apply (Hfirst []); exact E|].
-    destruct Alt as [Habove|(v & c & Hv & Hc & Hb)].
+    destruct Alt as [Habove|[(v & c & Hv & Hc & Hb)|Hnil]].
+    3:{ exfalso. assert (Hm : In m rl').
+        { apply Hrl'. split; [eapply Permutation_in; [exact HM|rewrite E; now left]|].
+          intros ->. rewrite E in NM. apply NoDup_app_disj with (x := x) in NM; [assumption|now left|now left]. }
+        rewrite Hnil in Hm. contradiction. }
     + subst M. exists (rev (m :: M'')). split.
       * apply (perm_remove_head x _ rl rl' N1 N2); auto.
         eapply perm_trans; [|exact HM].
@@ -1214,15 +1219,16 @@ Lemma ext_right ol rl rl' or_ x : NoDup rl -> NoDup rl' -> SPextL ol rl or_ -> I
   (forall v, In v prefs -> forall r, In r rl -> r <> x -> better v r x) ->
   (forall d, In d rl' <-> In d rl /\ d <> x) ->
   ((forall v, In v prefs -> forall b p, In b rl -> In p (ol ++ or_) -> better v b p) \/
-   (exists v c, In v prefs /\ In c ol /\ better v c x)) ->
+   (exists v c, In v prefs /\ In c ol /\ better v c x) \/ rl' = []) ->
   SPextL ol rl' (x :: or_).
 Proof.
   intros N1 N2 HS Hx Hw Hrl' Alt. apply SPextL_mirror in HS.
   assert (H : SPextL (rev or_ ++ [x]) rl' (rev ol)).
-  { apply (ext_left _ rl); auto. destruct Alt as [Ha|(v & c & Hv & Hc & Hb)].
+  { apply (ext_left _ rl); auto. destruct Alt as [Ha|[(v & c & Hv & Hc & Hb)|Hnil]].
     - left. intros v Hv b p Hb Hp. apply (Ha v Hv); auto. apply in_app_or in Hp. apply in_or_app.
       destruct Hp as [Hp|Hp]; [right|left]; now apply in_rev.
-    - right. exists v, c. split; [assumption|]. split; [now apply -> in_rev|assumption]. }
+    - right. left. exists v, c. split; [assumption|]. split; [now apply -> in_rev|assumption].
+    - right. now right. }
   apply SPextL_mirror in H. rewrite rev_involutive, rev_app_distr, rev_involutive in H. exact H.
 Qed.
 
@@ -1448,6 +1454,29 @@ Definition Step (st st' : elo_state) : Prop :=
   (Core st' /\ (Rl st' <> [] -> Ends st') /\ length (Rl st') < length (Rl st)) \/
   Final2d st'.
 
+Definition SPext (st : elo_state) : Prop := SPextL (OL st) (Rl st) (st_right st).
+
+(* completeness of one round: a single-peaked profile is never rejected and stays extendable *)
+Definition Compl (st st' : elo_state) : Prop :=
+  SPext st -> st_is_SP st' = true /\ (st_end_flag st' = false -> SPext st').
+
+Lemma Rl_nodup st : NoDup (Rl st).
+Proof. unfold Rl, RlP. now apply NoDup_filter. Qed.
+
+Lemma Rl_step1 st P' x : (forall a, In a P' <-> In a (placed st) \/ a = x) ->
+  forall d, In d (RlP P') <-> In d (Rl st) /\ d <> x.
+Proof. intros HP d. unfold Rl. rewrite !RlP_In, HP. tauto. Qed.
+
+Lemma Rl_step2 st P' x y : (forall a, In a P' <-> In a (placed st) \/ a = x \/ a = y) ->
+  forall d, In d (RlP P') <-> In d (Rl st) /\ d <> x /\ d <> y.
+Proof. intros HP d. unfold Rl. rewrite !RlP_In, HP. tauto. Qed.
+
+Lemma sp_profile_of_vf ax : (forall u, In u prefs -> vf u ax) -> sp_axis_profile (map strictify prefs) ax = true.
+Proof.
+  intros H. unfold sp_axis_profile. apply forallb_forall. intros o Ho. apply in_map_iff in Ho.
+  destruct Ho as (u & <- & Hu). apply valley_sp_axis_weak. apply vf_valley. now apply H.
+Qed.
+
 Lemma core_left st st' x : Core st -> In x alts -> ~ In x (placed st) ->
   st_is_SP st' = st_is_SP st -> st_end_flag st' = st_end_flag st -> st_axis st' = st_axis st ->
   OL st' = OL st ++ [x] -> st_right st' = st_right st ->
@@ -1526,7 +1555,7 @@ Lemma py_first_prefs P : exists v0, In v0 prefs /\
 Proof. destruct prefs as [|v0 rest]; [congruence|]. exists v0. split; [now left|reflexivity]. Qed.
 
 Theorem round_ok st : Core st -> Ends st -> Rl st <> [] ->
-  exists st', elo_round prefs st = Ok st' /\ Step st st'.
+  exists st', elo_round prefs st = Ok st' /\ Step st st' /\ Compl st st'.
 Proof.
   intros HC HE HR. destruct (c_run st HC) as (R1 & R2 & R3).
   destruct (pop_facts st HC HR) as (lc & Epop & Hlcnd & Hall & Hfrom).
@@ -1536,6 +1565,9 @@ Proof.
   assert (Hworst : forall v, In v prefs -> forall r, In r alts -> ~ In r (placed st) ->
             r <> lastR (placed st) v -> better v r (lastR (placed st) v)).
   { intros v Hv. destruct (lastR_props (placed st) v Hv HR) as (_ & _ & H). exact H. }
+  assert (Hbottom : forall x, In x lc -> exists v, In v prefs /\ forall r, In r (Rl st) -> r <> x -> better v r x).
+  { intros x Hx. destruct (Hfrom x Hx) as (v & Hv & <-). exists v. split; [assumption|].
+    intros r Hr Hne'. apply Rl_In in Hr. destruct Hr. now apply Hworst. }
   unfold elo_round. rewrite Epop. cbn [rbind].
   destruct lc as [|x [|y [|z lc']]].
   - (* no last candidate: impossible, there is a voter *)
@@ -1575,13 +1607,20 @@ Proof.
       set (P'R := (st_tal st ++ st_left st) ++ x :: st_right st).
       assert (HP'R : forall a, In a P'R <-> In a (placed st) \/ a = x).
       { intros a. unfold P'R, placed, OL. rewrite !in_app_iff. simpl. intuition (subst; auto). }
+      assert (Hw_all : forall v, In v prefs -> forall r, In r (Rl st) -> r <> x -> better v r x).
+      { intros v Hv r Hr Hne'. apply Rl_In in Hr. destruct Hr. now apply Hbx. }
+      assert (HxiOL : In xi0 (OL st)) by (rewrite EOL; apply in_or_app; right; now left).
+      assert (HxjR : In xj0 (st_right st)) by (rewrite Er; now left).
+      assert (HndL : NoDup (RlP P'L)) by (unfold RlP; now apply NoDup_filter).
+      assert (HndR : NoDup (RlP P'R)) by (unfold RlP; now apply NoDup_filter).
       rewrite (Hps2 P'L HP'L).
       destruct (py_first_prefs P'L) as (v0 & Hv0 & Efirst). rewrite Efirst. cbn [rbind].
       rewrite (vote_filter_length P'L v0 Hv0).
       destruct (length (RlP P'L) =? 0) eqn:Elen.
       * (* the last candidate: goes between the two ends *)
         apply Nat.eqb_eq in Elen. apply length_zero_iff_nil in Elen.
-        eexists. split; [reflexivity|]. right. left.
+        eexists. split; [reflexivity|]. split.
+        { right. left.
         match goal with |- Core ?s /\ _ /\ _ => set (st' := s) end.
         assert (Epl : placed st' = P'L) by reflexivity.
         destruct (core_left st st' x HC Hxa Hxn) as [HC' Hlt]; try reflexivity.
@@ -1589,7 +1628,13 @@ Proof.
         { intros v Hv. unfold Rl. rewrite Epl, Elen. simpl.
           destruct (HN v Hv) as [Hb|Hb]; [left; now apply Hleft_all|right; now apply Hright_all]. }
         split; [exact HC'|]. split; [|exact Hlt].
-        intros Hcontra. exfalso. apply Hcontra. unfold Rl. now rewrite Epl.
+        intros Hcontra. exfalso. apply Hcontra. unfold Rl. now rewrite Epl. }
+        { intros HS. split; [exact R1|]. intros _.
+          match goal with |- SPext ?s => set (st' := s) end.
+          assert (EOL' : OL st' = OL st ++ [x]) by (unfold OL; simpl; now rewrite app_assoc).
+          unfold SPext. rewrite EOL'. change (st_right st') with (st_right st). change (Rl st') with (RlP P'L).
+          apply (ext_left (OL st) (Rl st) (RlP P'L) (st_right st) x (Rl_nodup st) HndL HS HxR Hw_all (Rl_step1 st P'L x HP'L)).
+          right. right. exact Elen. }
       * (* the loop over the voters *)
         assert (Hvok : forall v, In v prefs -> voter_ok x xi0 xj0 v).
         { intros v Hv. repeat split.
@@ -1604,12 +1649,28 @@ Proof.
           - now apply HN. }
         destruct (single_loop_spec x xi0 xj0 prefs 0) as (c & contra & Eloop & Hf & Ht); [lia|exact Hvok|].
         rewrite Eloop. cbn [rbind]. destruct contra.
-        -- eexists. split; [reflexivity|]. left. reflexivity.
-        -- destruct (Hf eq_refl) as (Hc2 & _ & Hgoodv & _).
+        -- eexists. split; [reflexivity|]. split; [left; reflexivity|].
+           intros HS. exfalso. destruct (Ht eq_refl) as [[Hc|(v1 & Hv1 & F1)] [Hc'|(v2 & Hv2 & F2)]]; try discriminate.
+           destruct (RlP P'L) as [|m rl0] eqn:ERl; [discriminate|].
+           assert (Hm : In m (Rl st) /\ m <> x).
+           { apply (Rl_step1 st P'L x HP'L). rewrite ERl. now left. }
+           destruct Hm as [Hm1 Hm2].
+           apply (ext_contra_single (OL st) (Rl st) (st_right st) x m (Rl_nodup st) HS HxR Hm1 Hm2 Hw_all).
+           ++ exists v1, xj0. split; [assumption|]. split; [assumption|]. apply F1.
+           ++ exists v2, xi0. split; [assumption|]. split; [assumption|]. apply F2.
+        -- destruct (Hf eq_refl) as (Hc2 & _ & Hgoodv & Hwhy1 & Hwhy2 & Hwhy0).
            destruct (c =? 2) eqn:Ec.
            ++ (* to the right *)
               apply Nat.eqb_eq in Ec. subst c.
-              eexists. split; [reflexivity|]. right. left.
+              eexists. split; [reflexivity|]. split.
+              2:{ intros HS. split; [exact R1|]. intros _.
+                  match goal with |- SPext ?s => set (st' := s) end.
+                  unfold SPext. change (OL st') with (OL st). change (st_right st') with (x :: st_right st).
+                  change (Rl st') with (RlP P'R).
+                  apply (ext_right (OL st) (Rl st) (RlP P'R) (st_right st) x (Rl_nodup st) HndR HS HxR Hw_all (Rl_step1 st P'R x HP'R)).
+                  right. left. destruct (Hwhy2 eq_refl) as [Hc|(v2 & Hv2 & F2)]; [discriminate|].
+                    exists v2, xi0. split; [assumption|]. split; [assumption|]. apply F2. }
+              right. left.
               match goal with |- Core ?s /\ _ /\ _ => set (st' := s) end.
               assert (Epl : placed st' = P'R) by reflexivity.
               assert (Esp' : map (filter (unplaced P'L)) prefs = map (filter (unplaced P'R)) prefs).
@@ -1626,7 +1687,22 @@ Proof.
               ** simpl. discriminate.
            ++ (* to the left *)
               apply Nat.eqb_neq in Ec.
-              eexists. split; [reflexivity|]. right. left.
+              eexists. split; [reflexivity|]. split.
+              2:{ intros HS. split; [exact R1|]. intros _.
+                  match goal with |- SPext ?s => set (st' := s) end.
+                  assert (EOL' : OL st' = OL st ++ [x]) by (unfold OL; simpl; now rewrite app_assoc).
+                  unfold SPext. rewrite EOL'. change (st_right st') with (st_right st). change (Rl st') with (RlP P'L).
+                  apply (ext_left (OL st) (Rl st) (RlP P'L) (st_right st) x (Rl_nodup st) HndL HS HxR Hw_all (Rl_step1 st P'L x HP'L)).
+                  assert (Hc01 : c = 0 \/ c = 1) by lia. destruct Hc01 as [-> | ->].
+                    + left. destruct (Hwhy0 eq_refl) as [_ Hall0]. intros v Hv b p Hb Hp.
+                      destruct (Hall0 v Hv) as [G1 G2].
+                      assert (Hxp : better v x p).
+                      { apply in_app_or in Hp. destruct Hp as [Hp|Hp]; [now apply Hleft_all|now apply Hright_all]. }
+                      destruct (N.eq_dec b x) as [->|Hbx']; [assumption|].
+                      pose proof (Hw_all v Hv b Hb Hbx') as Hbb. unfold better in *. lia.
+                    + right. left. destruct (Hwhy1 eq_refl) as [Hc|(v1 & Hv1 & F1)]; [discriminate|].
+                      exists v1, xj0. split; [assumption|]. split; [assumption|]. apply F1. }
+              right. left.
               match goal with |- Core ?s /\ _ /\ _ => set (st' := s) end.
               assert (Epl : placed st' = P'L) by reflexivity.
               destruct (core_left st st' x HC Hxa Hxn) as [HC' Hlt]; try reflexivity.
@@ -1645,7 +1721,18 @@ Proof.
       assert (HP' : forall a, In a P' <-> In a (placed st) \/ a = x).
       { intros a. unfold P', placed, OL. rewrite !in_app_iff. simpl. intuition (subst; auto). }
       rewrite (ps2_single st x P' HC HR Hlast HP').
-      eexists. split; [reflexivity|]. right. left.
+      eexists. split; [reflexivity|]. split.
+      2:{ intros HS. split; [exact R1|]. intros _.
+          match goal with |- SPext ?s => set (st' := s) end.
+          assert (EOL' : OL st' = OL st ++ [x]) by (unfold OL; simpl; rewrite El, !app_nil_r; reflexivity).
+          unfold SPext. rewrite EOL'. change (st_right st') with (st_right st). change (Rl st') with (RlP P').
+          assert (HndP' : NoDup (RlP P')) by (unfold RlP; now apply NoDup_filter).
+          assert (Hw_all : forall v, In v prefs -> forall r, In r (Rl st) -> r <> x -> better v r x).
+          { intros v Hv r Hr Hne'. apply Rl_In in Hr. destruct Hr. now apply Hbx. }
+          apply (ext_left (OL st) (Rl st) (RlP P') (st_right st) x (Rl_nodup st) HndP' HS HxR Hw_all (Rl_step1 st P' x HP')).
+          left. intros v Hv b p Hb Hp. rewrite Er, app_nil_r in Hp. unfold OL in Hp. rewrite El, app_nil_r in Hp.
+            apply (e_T st HE Exi v Hv p Hp b Hb). }
+      right. left.
       match goal with |- Core ?s /\ _ /\ _ => set (st' := s) end.
       assert (Epl : placed st' = P') by reflexivity.
       destruct (core_left st st' x HC Hxa Hxn) as [HC' Hlt]; try reflexivity.
@@ -1705,7 +1792,7 @@ Proof.
       { intros a b _ [H _]. discriminate. }
       rewrite Eloop. cbn [rbind]. destruct out as [x' y' forced'| |ax ok].
       * (* the two candidates are placed *)
-        simpl in Hspec. destruct Hspec as (Hp' & HFI' & _ & Hun & Hgood & _).
+        simpl in Hspec. destruct Hspec as (Hp' & HFI' & _ & Hun & Hgood & Hprov).
         assert (Hxy' : x' <> y') by (destruct Hp' as [[-> ->]|[-> ->]]; congruence).
         assert (HFI'' : FI0 forced' x' y').
         { destruct Hp' as [[-> ->]|[-> ->]]; [assumption|now apply FI0_sym]. }
@@ -1730,7 +1817,37 @@ Proof.
         { intros c. unfold P', placed, OL. rewrite !in_app_iff. simpl. rewrite ?in_app_iff. simpl.
           destruct Hab as [[-> ->]|[-> ->]]; intuition (subst; auto). }
         rewrite Eplace, (Hps2 P' HP').
-        eexists. split; [reflexivity|]. right. left.
+        eexists. split; [reflexivity|]. split.
+        2:{ intros HS. split; [exact R1|]. intros _.
+            match goal with |- SPext ?s => set (st' := s) end.
+            assert (EOL' : OL st' = OL st ++ [a]) by (unfold OL; simpl; now rewrite app_assoc).
+            unfold SPext. rewrite EOL'. change (st_right st') with (b :: st_right st). change (Rl st') with (RlP P').
+            apply (ext_pair _ (Rl st)); auto using Rl_nodup.
+            - unfold RlP. now apply NoDup_filter.
+            - apply Hbottom. destruct Hab as [[-> ->]|[-> ->]]; [now left|right; now left].
+            - apply Hbottom. destruct Hab as [[-> ->]|[-> ->]]; [right; now left|now left].
+            - intros d. rewrite (Rl_step2 st P' x y HP'). destruct Hab as [[-> ->]|[-> ->]]; tauto.
+            - destruct Hwhy as [Hu|Hf].
+              + left. intros v Hv b' p Hb' Hp.
+                assert (Hu' : funset forced' x y).
+                { destruct Hp' as [[-> ->]|[-> ->]]; [assumption|]. destruct Hu. split; assumption. }
+                destruct (Hun Hu' v Hv) as [[G1 G2] [G3 G4]].
+                assert (Hb'xi : better v b' xi0 /\ better v b' xj0).
+                { destruct (N.eq_dec b' x) as [->|Nx]; [split; assumption|].
+                  destruct (N.eq_dec b' y) as [->|Ny]; [split; assumption|].
+                  apply Rl_In in Hb'. destruct Hb' as [Hb'1 Hb'2].
+                  destruct (Hbxy v Hv b' Hb'1 Hb'2 Nx Ny) as [Hbb|Hbb]; unfold better in *; split; lia. }
+                destruct Hb'xi as [K1 K2]. apply in_app_or in Hp. destruct Hp as [Hp|Hp].
+                * eapply above_xi_above_left; [apply (core_LC st v HC Hv)|exact EOL|exact Hb'|exact K1|exact Hp].
+                * eapply above_xj_above_right; [apply (core_LC st v HC Hv)|exact Er|exact Hb'|exact K2|exact Hp].
+              + right. assert (Hab0 : is_perm2 a b x y) by exact Hab.
+                destruct (Hprov a b Hab0 Hf) as [[]|(v & Hv & [(Q1 & Q2 & Q3)|(Q1 & Q2 & Q3)])].
+                * exists v. split; [assumption|]. left. exists xj0. split; [rewrite Er; now left|].
+                  split; [assumption|]. unfold better in *. lia.
+                * exists v. split; [assumption|]. right. exists xi0.
+                  split; [rewrite EOL; apply in_or_app; right; now left|].
+                  split; [assumption|]. unfold better in *. lia. }
+        right. left.
         match goal with |- Core ?s /\ _ /\ _ => set (st' := s) end.
         assert (Epl : placed st' = P') by reflexivity.
         destruct (core_pair st st' a b HC Ha1 Ha2 Hb1 Hb2 Hanb) as [HC' Hlt]; try reflexivity.
@@ -1747,10 +1864,42 @@ Proof.
            assert (Hr5 : r <> y) by (intros H; apply Hr2; apply HP'; auto).
            destruct (Hbxy v Hv r Hr1 Hr3 Hr4 Hr5) as [H|H]; destruct Hab as [[-> ->]|[-> ->]]; auto.
         -- simpl. discriminate.
-      * eexists. split; [reflexivity|]. left. reflexivity.
+      * eexists. split; [reflexivity|]. split; [left; reflexivity|].
+        intros HS. exfalso. simpl in Hspec. destruct Hspec as (a & b & Hab & [[]|(v1 & Hv1 & Q1)] & (v2 & Hv2 & Q2)).
+        assert (Hfb : forall v a b, req xi0 xj0 v a b -> forbids_ba (OL st) (st_right st) v a b).
+        { intros v a0 b0 [(K1 & K2 & K3)|(K1 & K2 & K3)].
+          - left. exists xj0. split; [rewrite Er; now left|]. split; [assumption|]. unfold better in *. lia.
+          - right. exists xi0. split; [rewrite EOL; apply in_or_app; right; now left|].
+            split; [assumption|]. unfold better in *. lia. }
+        assert (HaR : In a (Rl st) /\ In b (Rl st) /\ a <> b /\ In a [x; y] /\ In b [x; y]).
+        { destruct Hab as [[-> ->]|[-> ->]]; repeat split; auto; simpl; auto. }
+        destruct HaR as (A1 & A2 & A3 & A4 & A5).
+        apply (ext_contra_pair (OL st) (Rl st) (st_right st) a b (Rl_nodup st) HS A1 A2 A3).
+        -- now apply Hbottom.
+        -- now apply Hbottom.
+        -- exists v1. split; [assumption|now apply Hfb].
+        -- exists v2. split; [assumption|now apply Hfb].
       * (* case 2.(d): the candidate axis has been tested *)
-        simpl in Hspec. destruct Hspec as (Eok & v & z & w & Hv & _ & Hax).
-        eexists. split; [reflexivity|]. destruct ok eqn:Eokv; [|left; reflexivity].
+        simpl in Hspec. destruct Hspec as (Eok & v & z & w & Hv & Hzw & Hax).
+        eexists. split; [reflexivity|]. split.
+        2:{ intros HS. split; [|discriminate]. simpl. rewrite Eok. apply sp_profile_of_vf.
+            assert (Hzw' : In z (Rl st) /\ In w (Rl st) /\ z <> w /\ In z [x; y] /\ In w [x; y]).
+            { destruct Hzw as [[-> ->]|[-> ->]]; repeat split; auto; simpl; auto. }
+            destruct Hzw' as (Z1 & Z2 & Z3 & Z4 & Z5).
+            assert (Hpermf : Permutation (filter (not_placed (st_tal st) (st_left st) (st_right st)) v) (Rl st)).
+            { unfold Rl, RlP. erewrite filter_ext; [apply Permutation_filter, Permutation_sym, (Hwf v Hv)|].
+              intros a0. unfold not_placed, unplaced, placed, OL. rewrite !memN_app.
+              destruct (memN a0 (st_tal st)), (memN a0 (st_left st)), (memN a0 (st_right st)); reflexivity. }
+            assert (Hinv : forall r, In r (Rl st) -> In r v).
+            { intros r Hr. apply Rl_In in Hr. apply (vote_in v); tauto. }
+            destruct Hax as [[(D1 & D2 & D3) ->]|[(D1 & D2 & D3) ->]].
+            - rewrite app_assoc. change (st_tal st ++ st_left st) with (OL st).
+              apply (ext_drev (OL st) (Rl st) (st_right st) xi0 z w v); auto using Rl_nodup.
+              rewrite EOL. apply in_or_app. right. now left.
+            - rewrite app_assoc. change (st_tal st ++ st_left st) with (OL st).
+              apply (ext_dfwd (OL st) (Rl st) (st_right st) xj0 z w v); auto using Rl_nodup.
+              rewrite Er. now left. }
+        destruct ok eqn:Eokv; [|left; reflexivity].
         right. right. split; [reflexivity|]. split; [reflexivity|]. split.
         { simpl. rewrite (c_sp st HC). destruct prefs; [congruence|discriminate]. }
         exists ax. split; [reflexivity|].
@@ -1769,7 +1918,19 @@ Proof.
       assert (HP' : forall c, In c P' <-> In c (placed st) \/ c = x \/ c = y).
       { intros c. unfold P', placed, OL. rewrite !in_app_iff. simpl. rewrite ?in_app_iff. simpl. intuition (subst; auto). }
       rewrite (Hps2 P' HP').
-      eexists. split; [reflexivity|]. right. left.
+      eexists. split; [reflexivity|]. split.
+      2:{ intros HS. split; [exact R1|]. intros _.
+          match goal with |- SPext ?s => set (st' := s) end.
+          assert (EOL' : OL st' = OL st ++ [x]) by (unfold OL; simpl; now rewrite app_assoc).
+          unfold SPext. rewrite EOL'. change (st_right st') with (y :: st_right st). change (Rl st') with (RlP P').
+          apply (ext_pair _ (Rl st)); auto using Rl_nodup.
+          - unfold RlP. now apply NoDup_filter.
+          - apply Hbottom. now left.
+          - apply Hbottom. right. now left.
+          - now apply Rl_step2.
+          - left. intros v Hv b' p Hb' Hp. rewrite Er, app_nil_r in Hp. unfold OL in Hp. rewrite El, app_nil_r in Hp.
+            apply (e_T st HE Exi v Hv p Hp b' Hb'). }
+      right. left.
       match goal with |- Core ?s /\ _ /\ _ => set (st' := s) end.
       assert (Epl : placed st' = P') by reflexivity.
       destruct (core_pair st st' x y HC Hxa Hxn Hya Hyn Hxy) as [HC' Hlt]; try reflexivity.
@@ -1787,7 +1948,21 @@ Proof.
         apply (Hbxy v Hv r Hr1 Hr3 Hr4 Hr5).
       * simpl. discriminate.
   - (* ---------------- three or more last candidates ---------------- *)
-    cbn [length Nat.leb]. eexists. split; [reflexivity|]. left. reflexivity.
+    cbn [length Nat.leb]. eexists. split; [reflexivity|]. split; [left; reflexivity|].
+    intros HS. exfalso.
+    assert (D : x <> y /\ x <> z /\ y <> z).
+    { inversion Hlcnd as [|? ? N1 Hlc1]; subst. inversion Hlc1 as [|? ? N2 _]; subst.
+      repeat split; intros ->; [apply N1; now left|apply N1; right; now left|apply N2; now left]. }
+    destruct D as (D1 & D2 & D3).
+    assert (Hin3 : forall e, In e [x; y; z] -> In e (Rl st)).
+    { intros e He. apply Rl_In. apply Hlcprop. simpl in He. simpl. tauto. }
+    apply (ext_three (OL st) (Rl st) (st_right st) x y z (Rl_nodup st) HS D1 D2 D3).
+    + apply Hin3. now left.
+    + apply Hin3. right. now left.
+    + apply Hin3. right. right. now left.
+    + apply Hbottom. now left.
+    + apply Hbottom. right. now left.
+    + apply Hbottom. right. right. now left.
 Qed.
 
 (* ---- the whole loop ---- *)
@@ -1830,7 +2005,7 @@ Proof.
       split; [|now apply core_final]. unfold elo_result. now rewrite R1, R3.
     + cbn [length Nat.leb].
       assert (HR : Rl st <> []) by (rewrite ER; discriminate).
-      destruct (round_ok st HC (HE ltac:(discriminate)) HR) as (st' & Eround & [Hfalse|[(HC' & HE' & Hlt)|Hfin]]).
+      destruct (round_ok st HC (HE ltac:(discriminate)) HR) as (st' & Eround & [Hfalse|[(HC' & HE' & Hlt)|Hfin]] & _).
       * rewrite Eround. cbn [rbind]. exists st'. split; [|now left].
         destruct f; simpl; rewrite Hfalse; reflexivity.
       * rewrite Eround. cbn [rbind]. apply IH; auto. rewrite ER in Hlt. simpl in Hlt, Hlen. lia.
